@@ -283,6 +283,7 @@ func (in *zzURRIn) check(attrs []byte, seid uint64, link uint32, tag string) {
 		}
 		zzAssert("C03.urr.triggers."+tag, u.Trigger == want)
 	}
+	zzAssert("C03.urr.period.presence."+tag, (zzCountAttr(attrs, gtp5gnl.URR_MEASUREMENT_PERIOD) == 1) == in.has[2])
 	zzAssert("C03.urr.info.presence."+tag, (zzCountAttr(attrs, gtp5gnl.URR_MEASUREMENT_INFO) == 1) == in.has[3])
 	if in.has[3] {
 		zzAssert("C03.urr.info."+tag, u.Info != nil && *u.Info == in.info[0])
@@ -515,6 +516,43 @@ func zzC03RemoveQERBAR() {
 	zzCover("C03.rm.done")
 }
 
+// Measurement Period value. The SMF gives seconds (32 bit); which unit the kernel attribute (u32)
+// is meant in is not documented in go-gtp5gnl, so the oracle demands only what every unit has in
+// common: the attribute is the period in seconds, milliseconds, microseconds or nanoseconds, without
+// wrap-around. Concrete boundary periods (a symbolic 64-bit multiplication by 10^9 is out of reach
+// for the solvers here).
+func zzC03URRPeriod() {
+	k := zzInstallKernel()
+	g := zzGtp5g(7)
+	secs := []uint32{1, 4, 5, 10, 60, 3600, 86400, 0xffffffff}
+	p := secs[nondetChoice("period", len(secs))]
+	pb := []byte{byte(p >> 24), byte(p >> 16), byte(p >> 8), byte(p)}
+	kids := []*ie.IE{ie.New(ie.URRID, []byte{0, 0, 0, 1}), ie.New(ie.MeasurementMethod, []byte{2}), ie.New(ie.ReportingTriggers, []byte{0x01, 0x00}), ie.New(ie.MeasurementPeriod, pb)}
+	var err error
+	op := "CreateURR"
+	if nondetBool("update") {
+		op = "UpdateURR"
+		_, err = g.UpdateURR(9, ie.NewGroupedIE(ie.UpdateURR, kids...))
+	} else {
+		err = g.CreateURR(9, ie.NewGroupedIE(ie.CreateURR, kids...))
+	}
+	zzAssert("C03.urr.period.accepted", err == nil)
+	attrs, ok := zzOneReq(k, 0, op, "urr-period")
+	if !ok {
+		return
+	}
+	v, okv := zzFindAttr(attrs, gtp5gnl.URR_MEASUREMENT_PERIOD, 0)
+	zzAssert("C03.urr.period.present", okv && len(v) == 4)
+	if okv && len(v) == 4 {
+		got := uint64(zzLE32(v))
+		P := uint64(p)
+		zzObserve("period-attribute", got)
+		zzAssert("C03.urr.period.value-is-the-period-in-some-unit", got == P || got == P*1000 || got == P*1000000 || got == P*1000000000)
+	}
+	zzCover("C03.urr.period.done")
+}
+
+func ZZ_C03_URRPeriod()    { zzC03URRPeriod() }
 func ZZ_C03_CreateQER()    { zzC03QER(false) }
 func ZZ_C03_UpdateQER()    { zzC03QER(true) }
 func ZZ_C03_CreateURR()    { zzC03CreateURR() }
